@@ -15,6 +15,7 @@ import struct
 import zlib
 
 from vflib import core, simrun
+from checks import _sess
 from simnet import hostile_cli, kernel, mserver, proto, scen
 from simnet.scen import US
 
@@ -347,16 +348,22 @@ def run(ctx):
     res.min_nontrivial = 0 if ctx.replay else ctx.pick(150, 600)
     with core.Build() as b:
         simrun.run_scenarios(res, b, scn, plist, jobs=ctx.jobs)
+        if not ctx.replay:
+            # ordinary traffic too (the workloads of the behavioural checks): a death there is the same violation
+            simrun.run_scenarios(res, b, _sess.scn_survive, _sess.survive_params(ctx, "C06", "client", ctx.pick(32, 2000), 600000), jobs=ctx.jobs)
         # memcheck pass: the same scenarios, fewer of them, with non-sanitized programs under valgrind memcheck (uninitialised
         # values and the invalid accesses ASan's red zones cannot see); the first error ends the program
         if not ctx.replay or (ctx.replay.get("witness") or {}).get("params", {}).get("memcheck"):
             mlist = [dict(p, idx=500000 + j, memcheck=True, tunnel_s=min(p["tunnel_s"], 15)) for j, p in enumerate(plist[::max(1, len(plist) // ctx.pick(16, 400))][:ctx.pick(16, 400)])]
+            olist_m = [dict(p, memcheck=True) for p in _sess.survive_params(ctx, "C06", "client", ctx.pick(12, 300), 700000)]
             if ctx.replay:
                 mlist = [ctx.replay["witness"]["params"]]
+                olist_m = []
             if mlist:
                 with core.Build(sanitize=False) as b2:
                     mres = core.Result()
                     simrun.run_scenarios(mres, b2, scn, mlist, jobs=ctx.jobs, memcheck_=True)
+                    simrun.run_scenarios(mres, b2, _sess.scn_survive, olist_m, jobs=ctx.jobs, memcheck_=True)
                     simrun.finalize_sets(mres)
                 res.violations += mres.violations
                 res.harness_errors += mres.harness_errors
@@ -365,7 +372,7 @@ def run(ctx):
                 res.scenarios = getattr(res, "scenarios", 0) + getattr(mres, "scenarios", 0)
                 for kk, vv in mres.inconclusive_why.items():
                     res.inconclusive_why[kk] = res.inconclusive_why.get(kk, 0) + vv
-                res.extra["memcheck_scenarios"] = len(mlist)
+                res.extra["memcheck_scenarios"] = len(mlist) + len(olist_m)
                 res.extra["memcheck_evaluations"] = mres.evaluations
                 for sig in mres.nontrivial:
                     res.nt("memcheck " + sig)
